@@ -302,7 +302,8 @@ Definition contents (s : store) : list oid := dedup (map fst s).
 
 (* ---- correspondence: scenarios and encoders ---- *)
 Record round := { r_kind : rkind; r_map : smap; r_fails : list (sid * oid);
-                  r_ro : list sid }.          (* remotes attached read_only in this round *)
+                  r_ro : list sid;            (* remotes attached read_only in this round *)
+                  r_wipe : list sid }.        (* stores emptied behind every index's back before the round *)
 Record scen := {
   s_idx : index;
   s_parse : list (bytes * list oid);
@@ -333,10 +334,13 @@ Definition enc_rindex (ix : rindex) : val :=
 Definition enc_ixmap (sids : list sid) (x : ixmap) : val :=
   VL (map (fun s => match iget x s with Some ix => enc_rindex ix | None => VL [] end) sids).
 
-Fixpoint run_rounds (sc : scen) (rs : list round) (w : stores) (x : ixmap) : list val :=
+Definition wipe (l : list sid) (w : stores) : stores := fold_left (fun w s => sset w s []) l w.
+
+Fixpoint run_rounds (sc : scen) (rs : list round) (w0 : stores) (x : ixmap) : list val :=
   match rs with
   | [] => []
   | r :: rest =>
+      let w := wipe (r_wipe r) w0 in
       let ox := run_round_ro (mk_env sc r) (r_kind r) (r_ro r) (r_map r) (s_idx sc) w x in
       let out := fst ox in
       VL [ VL (map enc_group (groups_ro (r_kind r) (r_ro r) (r_map r) (s_idx sc)));
@@ -345,10 +349,11 @@ Fixpoint run_rounds (sc : scen) (rs : list round) (w : stores) (x : ixmap) : lis
            enc_ixmap (s_ix sc) (snd ox) ]
       :: run_rounds sc rest (p_w out) (snd ox)
   end.
-Fixpoint final_stores (sc : scen) (rs : list round) (w : stores) (x : ixmap) : stores :=
+Fixpoint final_stores (sc : scen) (rs : list round) (w0 : stores) (x : ixmap) : stores :=
   match rs with
-  | [] => w
+  | [] => w0
   | r :: rest =>
+      let w := wipe (r_wipe r) w0 in
       let ox := run_round_ro (mk_env sc r) (r_kind r) (r_ro r) (r_map r) (s_idx sc) w x in
       final_stores sc rest (p_w (fst ox)) (snd ox)
   end.
